@@ -71,6 +71,12 @@ where
       move |e| error(serial_error, e),
       move || complete(serial_complete),
     );
+    if !self.subscriber.is_subscribed() {
+      // the subscription has already ended (finalize has run): hand out an
+      // observer that is already unsubscribed instead of registering it
+      observer.unsubscribe();
+      return observer;
+    }
     let o_unsub = observer.clone();
 
     let mut unsubscribers = self.unscribers.write().unwrap();
